@@ -91,6 +91,24 @@ def jEInt (e : EInt) : String :=
   | .negInf => "\"-inf\""
   | .posInf => "\"inf\""
 
+def jExceptList (r : Except Err (List (Bins Item))) : String :=
+  match r with
+  | .ok l => jList jBins l
+  | .error e => jErr e
+def jExceptOpt (r : Except Err (Option (Bins Item))) : String :=
+  match r with
+  | .ok (some b) => jBins b
+  | .ok none => "{\"none\":true}"
+  | .error e => jErr e
+
+def parseInt (s : String) : Option Int :=
+  let (neg, s') := dropMinus s
+  s'.toNat?.map fun n => if neg then -(n : Int) else (n : Int)
+
+/-- sort key of names: the id (the harness numbers the items by the rank of their names) -/
+def nmOf : Item → Nat := Prod.fst
+def FUEL : Nat := 100000000
+
 def parseObjective (s : String) : Option Objective :=
   match s.splitOn ":" with
   | ["maxmin"] => some .maxSmallest
@@ -114,6 +132,56 @@ def dispatch (op : String) (a : Args) : Option String :=
   | "cover_decreasing" => do pure (jBins (coverDecreasing val (← a.nat "B") (← a.items "items")))
   | "twothirds" => do pure (jBins (twoThirds val (← a.nat "B") (← a.items "items")))
   | "threequarters" => do pure (jBins (threeQuarters val (← a.nat "B") (← a.items "items")))
+  | "kk" => do pure (jExcept (kk val (← a.nat "k") (← a.items "items")))
+  | "ckk" => do
+      pure (jExcept (ckk val nmOf (← a.nat "k") (← a.bool "contents") (← a.items "items") FUEL))
+  | "ckkgen" => do
+      let bound : Option Nat ← match (← a.get "bound") with
+        | "inf" => pure none
+        | s => s.toNat?.map some
+      pure (jExceptList (ckkGen val nmOf (← a.nat "k") (← a.bool "contents") (← a.items "items") bound FUEL))
+  | "snp" => do
+      pure (jExcept (snp val nmOf (← a.nat "k") (← a.bool "contents") (← a.items "items") FUEL))
+  | "rnp" => do
+      pure (jExcept (rnp val nmOf (← a.nat "k") (← a.bool "contents") (← a.items "items") FUEL))
+  | "cg" => do
+      let cfg : CgCfg := { obj := (← a.get "obj" >>= parseObjective), useLb := (← a.bool "lb"),
+                           useFast := (← a.bool "fast"), useH3 := (← a.bool "h3"), useSeen := (← a.bool "seen") }
+      let cut : Option Nat ← match (← a.get "cut") with
+        | "inf" => pure none
+        | s => s.toNat?.map some
+      pure (jExceptOpt (cg val cfg (← a.nat "k") (← a.items "items") cut FUEL))
+  | "dp" => do
+      let o ← a.get "obj" >>= parseObjective
+      pure (match optValue o (← a.nat "k") ((← a.items "items").map val) with
+            | some x => "{\"value\":" ++ jInt x ++ "}"
+            | none => jErr .valueError)
+  | "opt_partition" => do
+      let o ← a.get "obj" >>= parseObjective
+      pure (match optValue o (← a.nat "k") (← a.nats "vals") with
+            | some x => jInt x
+            | none => jErr .valueError)
+  | "cbldm" => do
+      let d : Option Nat ← match (← a.get "d") with
+        | "inf" => pure none
+        | s => s.toNat?.map some
+      let cut : Option Nat ← match (← a.get "cut") with
+        | "inf" => pure none
+        | s => s.toNat?.map some
+      pure (match cbldm val (← a.items "items") d cut with
+            | some b => jBins b
+            | none => "{\"none\":true}")
+  | "gentree" => do
+      let lb ← a.get "lb" >>= parseInt
+      let ub ← a.get "ub" >>= parseInt
+      pure (jList (fun l => jNats (l.map (·.1))) (genTree val (← a.nat "den") lb ub (← a.items "items")))
+  | "allcomb_sums" => do
+      pure (jList jNats (allCombSums (← a.nats "a") (← a.nats "b")))
+  | "allcomb_contents" => do
+      let s1 ← a.nats "s1"; let s2 ← a.nats "s2"
+      let l1 ← a.get "l1" >>= parseBinsOf parseItems
+      let l2 ← a.get "l2" >>= parseBinsOf parseItems
+      pure (jList jBins (allCombContents nmOf (Bins.mk s1 l1) (Bins.mk s2 l2)))
   | "objvalue" => do
       let o ← a.get "obj" >>= parseObjective
       pure (jInt (o.value (← a.nats "sums") (← a.bool "sorted")))
